@@ -347,6 +347,34 @@ func (w *World) AddSyncedNode(name string, src *Node) (*Node, error) {
 	return n, nil
 }
 
+// AddSyncedNodeVia is AddSyncedNode with a transport between the peer's stream and the loader: relay receives every
+// vertex of the real StreamDAG channel and hands it on (it may delay, it must not drop or reorder).
+func (w *World) AddSyncedNodeVia(name string, src *Node, relay func(in <-chan *accountant.Vertex, out chan<- *accountant.Vertex)) (*Node, error) {
+	a := NewActor(name)
+	w.Keys[a.Addr] = a.W.Public
+	b, cancel, err := w.newBook(a)
+	if err != nil {
+		return nil, err
+	}
+	n := &Node{Idx: len(w.Nodes), Name: name, Actor: a, Book: b, cancel: cancel, Eval: map[H]*ConfEval{}, Seen: map[H]bool{}, Synced: true, Tainted: map[string]bool{}, Orphans: map[H]bool{}}
+	w.Nodes = append(w.Nodes, n)
+	ctx, cancelCause := context.WithCancelCause(context.Background())
+	out := make(chan *accountant.Vertex)
+	go func() {
+		defer close(out)
+		relay(src.Book.StreamDAG(ctx), out)
+	}()
+	b.LoadDag(cancelCause, out)
+	cause := context.Cause(ctx)
+	cancelCause(nil)
+	w.Logf("node %s synced from %s over a relaying transport (loaded=%v cause=%v)", name, src.Name, b.DagLoaded(), cause)
+	if !b.DagLoaded() {
+		return n, fmt.Errorf("sync failed: %v", cause)
+	}
+	w.Observe(n, OpInfo{Kind: "sync", OK: true})
+	return n, nil
+}
+
 // AddLoadedNode creates a node and feeds the given vertices to the real LoadDag through a channel.
 // The node is registered in the world only when register is true. Returns the node, whether it reports loaded, and the cancel cause.
 func (w *World) AddLoadedNode(name string, stream []*accountant.Vertex, register bool) (*Node, bool, error) {
